@@ -100,11 +100,12 @@ static void key_dtor(void *v)
 }
 static void wait_count(volatile int *p, int target, const char *what)
 {
-    for (long i = 0; __atomic_load_n(p, __ATOMIC_SEQ_CST) < target; i++) {
+    /* no iteration cap: on a loaded machine a stream can be descheduled for seconds, and
+     * a count of yields is a clock in disguise; a unit that really never runs makes this
+     * loop spin for ever, which the executor reports as a hang */
+    (void)what;
+    while (__atomic_load_n(p, __ATOMIC_SEQ_CST) < target)
         relax();
-        if (i > 40000000)
-            viol("%s: the created work unit never ran", what);
-    }
 }
 
 /* ---- user-defined pool (for the unit <-> work-unit map) ----------------- */
@@ -1254,8 +1255,7 @@ void ft_run(void)
         if (b_waiting && st == ABT_THREAD_STATE_BLOCKED)
             break;
         ABT_thread_yield();
-        if (i > 40000000)
-            viol("context: the blocked ULT never blocked");
+        (void)i;
     }
     /* the calls */
     if (F.caller == 0) {
